@@ -52,13 +52,14 @@ type checker struct {
 }
 
 func run(e *harness.Env) {
-	e.Rule = "documents: (A) every sequence of 1..3 body blocks over the full block alphabet of each format (DOCX 45 letters, ODT 39 letters; listed in docx_alphabet / odt_alphabet), all optional parts present " +
+	e.Rule = "documents: (A) every sequence of 1..3 body blocks over the full block alphabet of each format (DOCX 46 letters, ODT 40 letters; listed in docx_alphabet / odt_alphabet), all optional parts present " +
 		"(quick: length-3 sequences with at most one letter outside the structural sub-alphabet); " +
 		"(B, thorough) every sequence of 4 blocks over the structural sub-alphabet (letters whose effect can cross block boundaries: plain / empty / named-style paragraphs, direct formatting on a styled paragraph, headings, list items, tables, block-level content control) " +
 		"and every sequence of 4 blocks with at most 2 letters other than the plain paragraph over the full alphabet; " +
 		"(C) for every other combination of optional parts (styles / numbering / header / footer absent) and for ExcludeHeadersAndFooters (with and without header / footer parts): every sequence of <= 2 blocks over the full alphabet (thorough: also 3 blocks over the structural sub-alphabet). " +
 		"(D) numbering layout: every sequence of 1..3 (thorough 1..4) letters of the list sub-alphabet additionally with every other layout of word/numbering.xml (1..3 w:abstractNum definitions of differing numFmt / start, declaration order reversed / rotated / minimal, sparse ids, w:num -> w:abstractNum not the identity, a w:num with lvlOverride/startOverride) resp. of the ODT text:list-style definitions (order reversed / rotated / minimal, common vs automatic styles). " +
-		"Each document is read through Text(), ToMarkdown(), Document() and, when it has list items, docx/odt Reader.Lists(); one evaluation = one (document, view, expected block) triple, plus one per (document, view) for the header/footer clause. " +
+		"(E) one-reader space: every sequence of 1..2 (thorough 1..3) letters of a table / list sub-alphabet: the merge spans reported by a fresh reader's Tables() and ModelTables() against the authored grid, and for every ordered pair (first, second) of the reader views Text, Markdown, Document, Tables, ModelTables, Lists called on ONE opened docx/odt Reader: the second result equals the same view of a fresh reader. " +
+		"Each document of (A)-(D) is read through Text(), ToMarkdown(), Document() and, when it has list items, docx/odt Reader.Lists(); one evaluation = one (document, view, expected block) triple, plus one per (document, view) for the header/footer clause. " +
 		"distinct = distinct descriptors; non-trivial = the block is not a plain one-run paragraph or its document contains any other letter"
 	e.Assumptions = []string{
 		"docxw / odtw write what ECMA-376 / ODF 1.2 prescribe for the logical document (every XML part is checked for well-formedness on every case; no schema validator is available offline)",
@@ -81,6 +82,7 @@ func run(e *harness.Env) {
 
 	c.docx()
 	c.odt()
+	c.idempotence()
 }
 
 // product calls f for every index sequence of exactly length l over k letters, in a fixed order.
